@@ -4,6 +4,7 @@ import (
 	"context"
 	"fmt"
 	"strings"
+	"time"
 
 	"github.com/arr-ai/arrai/pkg/arraictx"
 	"github.com/arr-ai/arrai/syntax"
@@ -53,5 +54,22 @@ func init() {
 		}
 		fmt.Fprintf(&sb, "Definition neg_kind_is_negation : bool := %v.\n", neg == 1)
 		return map[string]string{"Kinds.v": sb.String()}, nil
+	})
+}
+
+// gotype: {"src": "..."} -> the Go type name and Kind() number of the value the
+// implementation represents the expression with (compared with the
+// representation the model of the order predicts for the same value).
+func init() {
+	register("gotype", func(in map[string]any) map[string]any {
+		src, _ := in["src"].(string)
+		r, to := safeEval(src, 10*time.Second)
+		out := obs(r, to, false)
+		if out["st"] == "ok" {
+			out["gotype"] = fmt.Sprintf("%T", r.val)
+			out["kind"] = r.val.Kind()
+			delete(out, "val")
+		}
+		return out
 	})
 }
